@@ -137,6 +137,8 @@ class Impl:
         """Identifier keys are documented to raise (ValueError: the reaction has no model; KeyError: no such metabolite in
         the model) -- the Gallina op has no key shapes, so such a step is not given to the model: it must raise that
         exception and change nothing (harness-side monitor, code 7)."""
+        if o[0] == "AddMet" and len(o) > 2 and o[2] in ("dup", "badid"):
+            return "RaiseValueError"
         if o[0] in ("AddSt", "SubSt") and len(o) > 4 and o[4] == "id":
             r = self.rx.get(o[1])
             if r is None:
@@ -171,6 +173,8 @@ class Impl:
             return False
         if o[0] == "RemoveMet" and ("M%d" % o[1]) not in self.model.metabolites:
             return False
+        if o[0] == "AddMet" and len(o) > 2 and o[2] == "dup" and ("M%d" % o[1]) in self.model.metabolites:
+            return False        # already present: both objects are filtered out, nothing is rejected
         if o[0] == "Exit" and len(self.model._contexts) == 0:
             return False
         return True
@@ -208,7 +212,15 @@ class Impl:
                 elif n == "RemoveRxn":
                     M.remove_reactions([self.rx[a[0]]], remove_orphans=bool(a[1]))
                 elif n == "AddMet":
-                    M.add_metabolites([self.cobra.Metabolite("M%d" % a[0], compartment="c")])
+                    kind = a[1] if len(a) > 1 else "ok"
+                    if kind == "dup":        # two different objects with one identifier: documented to be rejected
+                        M.add_metabolites([self.cobra.Metabolite("M%d" % a[0], compartment="c"),
+                                           self.cobra.Metabolite("M%d" % a[0], compartment="c")])
+                    elif kind == "badid":    # an empty identifier after a valid one
+                        M.add_metabolites([self.cobra.Metabolite("M%d" % a[0], compartment="c"),
+                                           self.cobra.Metabolite("", compartment="c")])
+                    else:
+                        M.add_metabolites([self.cobra.Metabolite("M%d" % a[0], compartment="c")])
                 elif n == "RemoveMet":
                     M.remove_metabolites([M.metabolites.get_by_id("M%d" % a[0])], destructive=bool(a[1]))
                 elif n == "SetBounds":
@@ -284,8 +296,12 @@ class Impl:
                 mt.append({"id": k, "in": True, "back": back, "model_ptr": m._model is M, "detached_back": det})
             else:
                 mt.append({"id": k, "in": False, "back": []})
-        raw = obsmodel.observe_raw(M)
-        shape_ok = raw["column_names_unique"] and raw["row_names_unique"] and raw["constant"] in ("0/1", None)
+        try:
+            raw = obsmodel.observe_raw(M)
+            shape_ok = raw["column_names_unique"] and raw["row_names_unique"] and raw["constant"] in ("0/1", None)
+        except Exception as e:  # noqa  -- e.g. optlang's pending removals refer to objects that are not in the problem
+            raw = {"columns": [], "rows": [], "direction": "max", "observe_error": "%s: %s" % (type(e).__name__, e)}
+            shape_ok = False
         names = {}
         for k, r in self.rx.items():
             names[r.id] = (k, False)
@@ -473,6 +489,8 @@ def gen_history(rng, length, solver="glpk", ctx_p=0.12, max_depth=3, fail_p=0.15
             c = [m for m in usable_mets() if m not in mets_in()]
             if c:
                 o = ["AddMet", rng.choice(c)]
+                if rng.random() < fail_p:
+                    o.append(rng.choice(["dup", "badid"]))      # rejected additions (ValueError, nothing changes)
         elif n == "RemoveMet":
             c = mets_in()
             if c:
